@@ -77,6 +77,10 @@ Definition is_panic (m : mres) : bool := match m with MPanic _ => true | _ => fa
 Inductive minput :=
 | MNone
 | MPath (w : world) (path : list byte)
+| MRel (w : world) (names : list ident) (row : bool) (path : list byte)
+    (* Find(path) on the selection root.Find leads to through the schema idents [names] ([row]: the
+       last ident is a list and the selection is one of its entries); [path] may start with "../"
+       steps and may carry a "?query" part *)
 | MJson (w : world) (doc : jv)
 | MMatch (segs : list ident) (base_len : nat) (cand : list ident)
 | MXPath (text : list byte).
